@@ -426,6 +426,12 @@ func TestC12(t *testing.T) {
 			{Argv: []string{"text", "conv", "degree"}, Input: "1[1]{z=1,a=2,m=3,txt=x,b=4,key=D,y=5,c=6}", HasInput: true},
 			{Argv: []string{"write", "parse"}, Input: "- values: [1]\n  meta: {z: a, b: c, y: d, a: e, x: f, c: g}\n  chord: {degree: \"1\", name: m9}\n", HasInput: true},
 		}
+		// marks just outside the table of dynamics: refused, and refused the same way every time
+		fixed = append(fixed,
+			C12Case{Argv: []string{"text", "conv", "syllable"}, Input: "C[1]{vel=fff} G[1]{vel=ppp}\n", HasInput: true},
+			C12Case{Argv: []string{"write", "event"}, Input: "- values: [\"1\"]\n  chord: {degree: \"1\", name: \"\"}\n  velocity: ppp\n", HasInput: true},
+			C12Case{Argv: []string{"write", "--velocity", "fff"}, Input: "- values: [\"1\"]\n  chord: {degree: \"1\", name: \"\"}\n", HasInput: true},
+		)
 		// the tree walker that classifies a text runs in its own goroutine: a long tacet intro before the first
 		// chord, and a piece long enough for scheduling to matter
 		tacet := strings.Repeat("R[4] ", 60)
